@@ -21,10 +21,17 @@ A hierarchy is a JSON model
      "mods":    [m, ...]             module number of each class (non-decreasing, so forward edges import earlier modules)
      "via":     [[form, ...], ...]   parallel to "bases": how the base is reached (see FORMS; ignored for externals)
      "resolve": bool                 load(..., resolve_aliases=resolve)
+     "lib": {"split": s, "style": "pkg"|"top", "name": str, "modnames": [str, ...]}
+                                     optional: modules m0..m(s-1) do not belong to PKG but form a second distribution:
+                                     style "pkg" = a top-level package <name> with modules <modnames>; style "top" =
+                                     top-level modules <modnames>. Names may repeat names used inside PKG (a top-level
+                                     module `m2` next to `c07pkg/m2.py`; package `pkg` next to `c07pkg`)
+     "clsnames": [str, ...]          optional: the real class names (default C<i>); names may repeat across modules, so that
+                                     `c07pkg.m2.C0` can derive from `m2.C0` / `pkg.m2.C0`
      "history": {...}                optional, a history on one loader / modules collection (the answer must be the one
                                      for the *final* tree, whatever was asked before):
-         {"type": "late", "split": s}     modules m0..m(s-1) form a second top-level package LIB that is loaded only
-                                          after PKG has been loaded and every PKG class has been queried
+         {"type": "late"}                 needs "lib": the library part is loaded only after PKG has been loaded and
+                                          every PKG class has been queried
          {"type": "replace", "target": j, "bases": [...], "members": [k0..k3]}
                                           after everything was loaded and queried, class Cj is replaced in its module
                                           (`module.set_member("Cj", new_class)`) by a new class with these bases
@@ -210,7 +217,7 @@ def class_level_names(case, i: int) -> list[str]:
         out.append("__init__")
     if cgi_of(case, i):
         out.append("__class_getitem__")
-    out.extend(f"C{j}" for j in hosted_in(case, i))
+    out.extend(cls_name(case, j) for j in hosted_in(case, i))
     return out
 
 
@@ -235,7 +242,7 @@ def universe(case) -> list[str]:
         out.append("__init__")
     if any(cgi_of(case, i) for i in range(n)):
         out.append("__class_getitem__")
-    out.extend(f"C{j}" for j, h in enumerate(hosts(case)) if h is not None)
+    out.extend(cls_name(case, j) for j, h in enumerate(hosts(case)) if h is not None)
     return out
 
 
@@ -320,25 +327,45 @@ def render_one(case) -> str:
     return "\n".join(parts) + "\n"
 
 
+def cls_name(case, i: int) -> str:
+    names = case.get("clsnames")
+    return names[i] if names else f"C{i}"
+
+
+def in_lib(case, m: int) -> bool:
+    lib = case.get("lib")
+    return bool(lib) and m < lib["split"]
+
+
+def mod_name(case, m: int) -> str:
+    return case["lib"]["modnames"][m] if in_lib(case, m) else f"m{m}"
+
+
 def pkg_of(case, m: int) -> str:
-    """Top-level package holding module m<m> (history "late": the first `split` modules live in LIB)."""
-    hist = case.get("history")
-    if hist and hist["type"] == "late" and m < hist["split"]:
-        return LIB
+    """Package holding module number m ("" = the module is a top-level module)."""
+    if in_lib(case, m):
+        return case["lib"]["name"] if case["lib"]["style"] == "pkg" else ""
     return PKG
 
 
-def packages(case) -> list[str]:
-    hist = case.get("history")
-    return [LIB, PKG] if hist and hist["type"] == "late" else [PKG]
+def mod_path(case, m: int) -> str:
+    p = pkg_of(case, m)
+    return f"{p}.{mod_name(case, m)}" if p else mod_name(case, m)
+
+
+def lib_tops(case) -> list[str]:
+    """Top-level names of the library part (what has to be loaded besides PKG)."""
+    lib = case.get("lib")
+    if not lib:
+        return []
+    return [lib["name"]] if lib["style"] == "pkg" else list(lib["modnames"][: lib["split"]])
 
 
 def class_path(case, i: int) -> str:
     h = hosts(case)[i]
-    local = f"C{i}" if h is None else f"C{h}.C{i}"
+    local = cls_name(case, i) if h is None else f"{cls_name(case, h)}.{cls_name(case, i)}"
     if case["kind"] == "pkg":
-        m = case["mods"][i]
-        return f"{pkg_of(case, m)}.m{m}.{local}"
+        return f"{mod_path(case, case['mods'][i])}.{local}"
     return f"m.{local}"
 
 
@@ -365,11 +392,15 @@ def render_pkg(case) -> dict[str, str]:
     host = hosts(case)
     nmods = max(mods) + 1
     body: dict[int, list[str]] = {m: [] for m in range(nmods)}
-    init_lines: dict[str, list[tuple[int, str]]] = {p: [] for p in packages(case)}
+    init_lines: dict[str, list[tuple[int, str]]] = {}
     files: dict[str, str] = {}
     for m in range(nmods):
         mod_used = {b for i, bs in enumerate(bases) if mods[i] == m for b in bs if isinstance(b, str)}
         body[m].extend(external_prelude(mod_used))
+        if pkg_of(case, m):
+            init_lines.setdefault(pkg_of(case, m), [])
+    init_lines.setdefault(PKG, [])
+    cn = lambda i: cls_name(case, i)  # noqa: E731
 
     def base_exprs(i: int, imports: list[str]) -> list[str]:
         here = pkg_of(case, mods[i])
@@ -381,45 +412,46 @@ def render_pkg(case) -> dict[str, str]:
             form = via[i][k]
             hb = host[b]
             top = b if hb is None else hb  # the module-level class that is imported
-            tail = "" if hb is None else f".C{b}"  # path from it to the base
+            tail = "" if hb is None else f".{cn(b)}"  # path from it to the base
             there = pkg_of(case, mods[b])
-            src = f"{there}.m{mods[b]}"
+            src = mod_path(case, mods[b])
             alias = f"A{i}_{k}"
             if form == "d":
                 # same module: a sibling (same host) is a bare name in the host's body, anything else is reached from module level
-                expr = f"C{b}" if (hb is None or hb == host[i]) else f"C{hb}.C{b}"
-            elif form == "f" or (form == "r" and there != here):
-                imports.append(f"from {src} import C{top} as {alias}")
+                expr = cn(b) if (hb is None or hb == host[i]) else f"{cn(hb)}.{cn(b)}"
+            elif form == "f" or (form == "r" and (there != here or not there)) or (form == "i" and not there):
+                imports.append(f"from {src} import {cn(top)} as {alias}")
                 expr = alias + tail
             elif form == "r":
-                imports.append(f"from .m{mods[b]} import C{top} as {alias}")
+                imports.append(f"from .{mod_name(case, mods[b])} import {cn(top)} as {alias}")
                 expr = alias + tail
             elif form == "m":
                 imports.append(f"import {src}")
-                expr = f"{src}.C{top}{tail}"
-            elif form == "a":
+                expr = f"{src}.{cn(top)}{tail}"
+            elif form == "a" or (form == "p" and not there):
                 imports.append(f"import {src} as M{i}_{k}")
-                expr = f"M{i}_{k}.C{top}{tail}"
+                expr = f"M{i}_{k}.{cn(top)}{tail}"
             elif form == "p":
-                imports.append(f"from {there} import m{mods[b]} as M{i}_{k}")
-                expr = f"M{i}_{k}.C{top}{tail}"
+                imports.append(f"from {there} import {mod_name(case, mods[b])} as M{i}_{k}")
+                expr = f"M{i}_{k}.{cn(top)}{tail}"
             elif form in HOPS:
-                # the re-export modules belong to the importing package
-                prev_mod, prev_name = src, f"C{top}"
+                # the re-export modules belong to the importing package (to PKG when the importer is a top-level module)
+                prefix, folder = f"{here or PKG}.", f"{here or PKG}/"
+                prev_mod, prev_name = src, cn(top)
                 for hop in range(1, HOPS[form] + 1):
                     name = f"R{hop}_{i}_{k}"
-                    files[f"{here}/r{hop}_{i}_{k}.py"] = f"from {prev_mod} import {prev_name} as {name}\n"
-                    prev_mod, prev_name = f"{here}.r{hop}_{i}_{k}", name
+                    files[f"{folder}r{hop}_{i}_{k}.py"] = f"from {prev_mod} import {prev_name} as {name}\n"
+                    prev_mod, prev_name = f"{prefix}r{hop}_{i}_{k}", name
                 imports.append(f"from {prev_mod} import {prev_name} as {alias}")
                 expr = alias + tail
             elif form == "i":
                 # re-exported by the __init__ of the package that defines the class
-                init_lines[there].append((top, f"from {src} import C{top} as P{i}_{k}"))
+                init_lines[there].append((top, f"from {src} import {cn(top)} as P{i}_{k}"))
                 imports.append(f"from {there} import P{i}_{k} as {alias}")
                 expr = alias + tail
             elif form == "w":
                 imports.append(f"from {src} import *")
-                expr = f"C{top}{tail}"
+                expr = f"{cn(top)}{tail}"
             else:  # pragma: no cover
                 raise ValueError(form)
             exprs.append(expr + "[int]" if sub_of(case, i, k) else expr)
@@ -430,11 +462,11 @@ def render_pkg(case) -> dict[str, str]:
             continue
         imports: list[str] = []
         head_exprs = base_exprs(i, imports)
-        lines = [f"class C{i}({', '.join(head_exprs)}):" if head_exprs else f"class C{i}:"]
+        lines = [f"class {cn(i)}({', '.join(head_exprs)}):" if head_exprs else f"class {cn(i)}:"]
         inner = class_body(case, i)
         for j in hosted_in(case, i):
             exprs = base_exprs(j, imports)
-            inner.append(f"    class C{j}({', '.join(exprs)}):" if exprs else f"    class C{j}:")
+            inner.append(f"    class {cn(j)}({', '.join(exprs)}):" if exprs else f"    class {cn(j)}:")
             inner.extend(class_body(case, j, indent="        ") or ["        pass"])
         lines.extend(inner or ["    pass"])
         body[mods[i]].extend(imports)
@@ -444,7 +476,7 @@ def render_pkg(case) -> dict[str, str]:
     for p, lines_ in init_lines.items():
         files[f"{p}/__init__.py"] = "\n".join(line for _, line in sorted(lines_)) + "\n"
     for m in range(nmods):
-        files[f"{pkg_of(case, m)}/m{m}.py"] = "\n".join(body[m]) + "\n"
+        files[mod_path(case, m).replace(".", "/") + ".py"] = "\n".join(body[m]) + "\n"
     return files
 
 
@@ -541,11 +573,11 @@ def _build(case, with_externals: bool):
     # classes defined in the body of a host are attributes of the host (found through the MRO by its subclasses)
     for j, h in enumerate(host):
         if h is not None and h in classes and j in classes:
-            setattr(classes[h], f"C{j}", classes[j])
+            setattr(classes[h], cls_name(case, j), classes[j])
         elif h is not None and h in classes:
             # the nested class itself cannot be created: CPython would not get to create the host either; the
             # host's *hierarchy* is still well defined, its member Cj is a class statement that fails.
-            setattr(classes[h], f"C{j}", None)
+            setattr(classes[h], cls_name(case, j), None)
     return status, classes
 
 
